@@ -25,7 +25,7 @@ CHECKS = {
     text="Exploration over (identifier class, position) cells; static quoting check for all dialects on a sample; a collision matrix of programs that force the compiler to invent relation names while user tables/lets are called table_0..2.", note=EXEC_NOTE, design="DESIGN.md §3 C09 and §9"),
  "C10": dict(technique="runtime negative monitor: well-scoped programs with one scope-breaking edit must return Err on each of 8 repetitions",
     text="Exploration over (edit kind, name pool, enclosing transform) cells.", note="Trusts the generator's notion of a fully known frame (after select/aggregate/group-aggregate).", design="DESIGN.md §3 C10 and §9"),
- "C11": dict(technique="runtime determinism monitor against a sequential model (first call of a fresh process): repeated calls with failing/panicking calls in between, fresh processes, 16 barrier-released threads incl. first-call races, permuted file insertion orders",
+ "C11": dict(technique="runtime determinism monitor against a sequential model (first call of a fresh process): repeated calls with failing/panicking calls in between, fresh processes, 16 barrier-released threads incl. first-call races, permuted file insertion orders; thorough tier adds a ThreadSanitizer build (-Zsanitizer=thread -Zbuild-std, self-tested) of the thread-stress program: 32 fresh processes x 8 threads over ~1500 programs, any race report is a violation",
     text="Exploration: byte equality of SQL, RQ JSON, formatted text and full error (reason, hints, span, code, display) across histories, processes, schedules and file orders.", note="Hash seeds and schedules are sampled, not enumerated (K repetitions per program).", design="DESIGN.md §3 C11 and §9"),
  "C12": dict(technique="runtime crash monitor: panic hook + catch_unwind, process exit status, deterministic allocation-count growth; corpus/random/mutant sources, size-doubling families to n=4096, mutated PL/RQ JSON, 707 well-formed-but-unusual feature programs x all entry points x 12 dialects x option combinations",
     text="Exploration of every public entry point for panics, aborts (stack exhaustion) and super-polynomial logical cost.", note="debug-assertions and overflow-checks on; 8 MiB stack; sizes above 4096 unexplored; wall clock only as inconclusive watchdog. Blind spot: KF-C12-9 covers any resolver/lowering/formatter panic reached by MALFORMED input (mutants, token soup, mutated JSON); panics on well-formed input (corpus, generated, feature programs) are always reported.", design="DESIGN.md §3 C12 and §9"),
